@@ -488,6 +488,10 @@ class ExprMixin:
                     self.risk(fr, 'key', ('builtins.KeyError',), Sym('missingkey', base, idx), node)
                 return Sym('missingkey', base, idx)
             return Sym('index', base, idx)
+        if fr is not None and idx in (0, 1) and not isinstance(idx, bool) and isinstance(base, Sym) and base.op == 'call' and base.args and \
+                isinstance(base.args[0], Sym) and base.args[0].op == 'attr' and base.args[0].args[1] in ('parse_immutable', '_parse'):
+            # the (object, length) pair every parse entry point returns (C03.R1 / C03.R3 decide that it is one)
+            return Sym('index', base, idx)
         if fr is not None and isinstance(idx, int) and not isinstance(idx, bool) and not is_const(base) and \
                 not isinstance(base, (tuple, DictV)) and not (isinstance(base, ListV) and base.complete) and \
                 not self.at_least_one(base) and show(base) not in fr.nonempty and \
